@@ -123,6 +123,25 @@ class _Exprs(ast.NodeTransformer):
         return node
 
 
+    def visit_ListComp(self, node):
+        """``[E(x) for x in (a, b, c)]`` over a short literal of plain names / attribute chains / constants is the
+        display ``[E(a), E(b), E(c)]`` (reading a name or an attribute chain of a local has no effect to reorder)."""
+        self.generic_visit(node)
+        if len(node.generators) != 1:
+            return node
+        g = node.generators[0]
+        it = g.iter
+        if g.ifs or g.is_async or not isinstance(g.target, ast.Name) or not isinstance(it, (ast.Tuple, ast.List)) or not (1 <= len(it.elts) <= 4):
+            return node
+        if not all(isinstance(e, ast.Constant) or _dotted(e) for e in it.elts):
+            return node
+        if any(isinstance(s, (ast.Lambda, ast.ListComp, ast.SetComp, ast.DictComp, ast.GeneratorExp, ast.NamedExpr, ast.Await, ast.Yield, ast.YieldFrom)) for s in ast.walk(node.elt)):
+            return node
+        parts = [_Subst(g.target.id, e).visit(copy.deepcopy(node.elt)) for e in it.elts]
+        self.count += 1
+        return ast.copy_location(ast.List(elts=parts, ctx=ast.Load()), node)
+
+
 def _first_ifexp(expr):
     """the first conditional expression evaluated unconditionally-or-not inside ``expr`` that is not inside a lambda
     or a comprehension (those are evaluated later / repeatedly)"""
